@@ -60,12 +60,12 @@ CHECKS = {
          "x86-64 only. Vec3/Quat/Mat4 inputs restricted to their documented finite domain with |x| < 2^40 (no overflowing intermediates); non-finite inputs to debug-asserting functions are tallied, not judged.",
          "DESIGN.md §4 C19"),
  "C12": ("exploration",
-         "property-based testing (proptest) of round-trip laws over generated values; exhaustive enumeration of all byte strings <=3 bytes; structure-aware CBOR mutation and byte-level mutation of valid encodings against the accepted-implies-canonical oracle",
+         "property-based testing (proptest) of round-trip laws over generated values; exhaustive enumeration of all byte strings <=3 bytes; structure-aware CBOR mutation and byte-level mutation of valid encodings against the accepted-implies-canonical oracle; thorough tier adds coverage-guided libFuzzer campaigns (cargo-fuzz, ASan) per codec with the same oracle inside the target",
          "Law A (decode(encode(v)) = normal form, deterministic encoder) over generated values of each codec's domain and Law B (accepted bytes re-encode to themselves) over every byte string up to 3 bytes (CBOR value codecs) / 2 bytes (all canonical-form codecs), structure-aware mutants and byte mutants of encoder-produced seeds for 19 canonical-form codecs; round-trip-only group checked on accepted mutants. Exploration beyond the exhaustive short strings.",
          "Documented normal forms are taken from canonical.rs / js-cbor-mapping.md; DTO-level Law B is not claimed; WAL records not constructible from public fields (TopologyBraidEvent, TopologyIntent, RuntimeStateDelta) are not yet covered here.",
          "DESIGN.md §4 C12"),
  "C13": ("exploration",
-         "adversarial template grid + seeded byte-mutation fuzzing of every decoder in an isolated child process with a counting allocator; oracle = typed result, no panic/abort/stack overflow/hang, peak allocation proportional to input",
+         "adversarial template grid + seeded byte-mutation fuzzing of every decoder in an isolated child process with a counting allocator; oracle = typed result, no panic/abort/stack overflow/hang, peak allocation proportional to input; thorough tier adds coverage-guided libFuzzer campaigns (cargo-fuzz, ASan, 64 MiB single-allocation limit) per codec, from encoder seeds and from an empty corpus",
          "26 byte-level entry points fed declared-length bombs in every length position, nesting depth up to 10^6, every truncation cut, 1 MiB inputs, seeded mutants and random bytes; each input's outcome and peak live allocation measured in a sandboxed child; any panic, process death, 20 s silence or allocation above 1 MiB + 1024 x len is a violation with the minimised input as replay file.",
          "1024x proportionality constant and the eintlog MAX_FRAME_LEN cap are stated assumptions; the warp-wasm host boundary functions are not yet wired in.",
          "DESIGN.md §4 C13"),
